@@ -2856,6 +2856,11 @@ bool BW_MidiSequencer::parseSMF(FileAndMemReader &fr)
             return false;
         }
         trackLength = (size_t)readBEint(headerBuf + 4, 4);
+        if(trackLength > fr.fileSize() - fr.tell())
+        {
+            m_errorString = fr.fileName() + ": Unexpected file ending while getting raw track data!\n";
+            return false;
+        }
 
         // Read track data
         rawTrackData[tk].resize(trackLength);
